@@ -1,5 +1,6 @@
 # Property-specific read-only queries logged after each request (the argument grids the
 # properties quantify over).  Every hook returns a dict of concrete values (LRUs as bytes).
+import os
 import warnings
 
 import impl
@@ -667,8 +668,73 @@ def prehook_mmap(ix):
     return {"mmap": {"n": n, "bad": bad}}
 
 
+STRADDLERS = (("pages_iter", lambda t: t.pages_iter()),
+              ("webentity_prefix_iter", lambda t: t.webentity_prefix_iter()),
+              ("links_iter_out", lambda t: t.links_iter(out=True)),
+              ("links_iter_in", lambda t: t.links_iter(out=False)),
+              ("network", lambda t: t.get_webentities_links_iter(out=True, include_auto=True)))
+
+
+def _gen_item(x):
+    if isinstance(x, (list, tuple)):
+        return [_gen_item(v) for v in x]
+    if isinstance(x, (bytes, str, int, float, bool)) or x is None:
+        return x
+    if isinstance(x, dict):
+        return _norm(dict((k, _gen_item(v)) for k, v in x.items()))
+    if hasattr(x, "block"):
+        return ("node", x.block)
+    return type(x).__name__
+
+
+def straddle(ix, i, op):
+    """Public generators that are started before a request and advanced after it (a paused export
+    outliving an insertion, a rule installation, a clear()): both back-ends hand the generator the same
+    blocks, so what it yields, where it ends and how it fails must be the same.  A generator belongs to
+    its index object: those of an object that was closed (Reopen / Recreate) are dropped."""
+    import hashlib
+    if op is not None and op.get("op") in ("Reopen", "Recreate"):
+        ix.gens = []
+    live = getattr(ix, "gens", None)
+    if live is None:
+        live = ix.gens = []
+    rec, keep = [], []
+    for name, g, born in live:
+        items, state = [], "live"
+        for _ in range(2):
+            v, e = guarded(lambda: next(g))
+            if e == "StopIteration":
+                state = "done"
+                break
+            if e:
+                state = "exc:" + e
+                break
+            items.append(_gen_item(v))
+        rec.append((name, born, items, state))
+        if state == "live" and i - born < 6:
+            keep.append((name, g, born))
+    if i % 2 == 0:
+        t = getattr(ix.t, "_t", ix.t)
+        for k in range(2):
+            name, mk = STRADDLERS[(i // 2 + 2 * k + (i // 10)) % len(STRADDLERS)]
+            g, e = guarded(lambda: mk(t))
+            if g is not None:
+                # one item now, so that the generator is really under way when the next request runs
+                v, e = guarded(lambda: next(g))
+                rec.append((name, i, [_gen_item(v)] if not e else [], "live" if not e else "start:" + e))
+                if not e:
+                    keep.append((name, g, i))
+    ix.gens = keep
+    ix.gens_advanced = getattr(ix, "gens_advanced", 0) + sum(len(r[2]) for r in rec)
+    return hashlib.sha256(repr(_norm(rec)).encode("utf-8", "replace")).hexdigest(), rec
+
+
 def _pairhook(ix, driver, i, op, res):
-    return {"ans": answers_digest(ix, driver, i)}
+    q = {"ans": answers_digest(ix, driver, i)}
+    q["gens"], rec = straddle(ix, i, op)
+    if os.environ.get("VERIF_DEBUG_GENS"):
+        print("GENS", ix.backend, i, op and op.get("op"), rec)
+    return q
 
 
 hook_pair = wrap(_pairhook)
